@@ -740,6 +740,37 @@ pub fn eval(op: Op, args: &[Num], extra: u32) -> Option<Expect> {
     }
 }
 
+/// How Steel computes `(/ x y ...)` when an operand is inexact: x * (1 / (y * ...)).
+/// Used only while the known finding KF-C10-float-division is listed, to keep searching
+/// behind it (see DESIGN.md): these renderings are accepted in addition to the IEEE ones.
+pub fn div_by_reciprocal(args: &[Num]) -> Option<Vec<Num>> {
+    if args.len() < 2 {
+        return None;
+    }
+    let mut d = vec![args[1].clone()];
+    for a in &args[2..] {
+        let mut next = vec![];
+        for x in &d {
+            next.extend(arith2(Op::Mul, x, a)?);
+        }
+        d = cap(next);
+    }
+    let mut out = vec![];
+    for dv in &d {
+        let r = match dv {
+            Num::Ex(q) => {
+                if q.is_zero() {
+                    return None;
+                }
+                Num::Ex(q.recip())
+            }
+            Num::Fl(f) => Num::Fl(1.0 / f),
+        };
+        out.extend(arith2(Op::Mul, &args[0], &r)?);
+    }
+    Some(cap(out))
+}
+
 pub fn sign_of(b: &BigInt) -> Sign {
     b.sign()
 }
